@@ -116,6 +116,14 @@ func checkC07(c *Ctx) {
 			checkPackageIdentity(c, "C07.R1.package-keys", pk)
 		}
 	}
+	// the diff analyser's visited set: a key that merges two locations lets map iteration order
+	// choose which one is compared
+	for _, pk := range pkgs {
+		if pk.Name == "diff" {
+			c.Rule("C07.R1.visited-keys", "the visited-set key of the diff analyser distinguishes every location field, so that which comparison runs does not depend on iteration order", 4)
+			checkLocationKey(c, "C07.R1.visited-keys", pk)
+		}
+	}
 	// output files are opened truncated: the report is a function of the inputs, not of what the
 	// destination file held before
 	c.Rule("C07.R3.output-files", "every file opened for writing with O_CREATE (outside append/exclusive mode) is truncated", 1)
